@@ -27,7 +27,7 @@ fn steps_fwd(op: &Op, ctx: &dyn Context, operands: &mut dyn CoordinateSet) -> us
         }
         // Stack steps are not dispatched through `Op::apply`, so their inversion
         // (`inv` on the step, or on the macro it stems from) is taken care of here
-        let m = match (step.params.name.as_str(), step.descriptor.inverted) {
+        let m = match (stack_kind(step), step.descriptor.inverted) {
             ("push", false) | ("pop", true) => {
                 do_the_push(&mut stack, operands, &step.params.boolean)
             }
@@ -57,8 +57,22 @@ fn steps_fwd(op: &Op, ctx: &dyn Context, operands: &mut dyn CoordinateSet) -> us
 }
 
 fn is_stack_step(step: &Op) -> bool {
-    step.params.name == "stack"
+    stack_kind(step) == "stack"
 }
+
+// Which of the built-in stack operators ("push", "pop", "stack") is this step, if any?
+// Only the built-in constructors set the marker: A user defined operator registered
+// under one of these names overshadows the built-in, and is applied like any other step
+fn stack_kind(step: &Op) -> &str {
+    if step.params.boolean(STACK_MACHINE_MARKER) {
+        return step.params.name.as_str();
+    }
+    ""
+}
+
+/// Set (in `params.boolean`) by the constructors of the built-in operators `push`,
+/// `pop`, and `stack`, which are executed by the pipeline operator itself
+pub(super) const STACK_MACHINE_MARKER: &str = "_stack_machine";
 
 // ----- I N V E R S E -----------------------------------------------------------------
 
@@ -83,7 +97,7 @@ fn steps_inv(op: &Op, ctx: &dyn Context, operands: &mut dyn CoordinateSet) -> us
         }
         // Note: Under inverse invocation "push" calls pop and vice versa
         // (and the other way round for a step that is itself inverted)
-        let m = match (step.params.name.as_str(), step.descriptor.inverted) {
+        let m = match (stack_kind(step), step.descriptor.inverted) {
             ("push", false) | ("pop", true) => {
                 do_the_pop(&mut stack, operands, &step.params.boolean)
             }
